@@ -232,6 +232,17 @@ class AsyncListener:
         v6_flow_scope: Union[Tuple[()], Tuple[int, int]],
     ) -> None:
         """Respond to a query and reassemble any truncated deferred packets."""
+        if msg is not None:
+            deferred = self._deferred.get(addr)
+            if deferred:
+                held_source = deferred[-1].source
+                if held_source is not None and held_source[1] != port:
+                    # The truncated packets held for this address came from another
+                    # port, i.e. from another querier on that host. This query is not
+                    # their continuation: answer it on its own (a legacy reply echoes
+                    # the id and questions of the first packet) and keep waiting.
+                    self._query_handler.handle_assembled_query([msg], addr, port, transport, v6_flow_scope)
+                    return
         self._cancel_any_timers_for_addr(addr)
         packets = self._deferred.pop(addr, [])
         if msg:
